@@ -74,7 +74,7 @@ def run(ctx):
         sessions[sid] = {'u': u, 'opts': opts, 'history': history}
     # behaviours of the model (every call made twice in a row as well)
     behs = c09.behaviours_from_simulation(ctx, 'mc/MC_Kingdon_sim.cfg', 20 if q else 200, 70 if q else 110, 'seq')
-    for bi, (calls, outcome) in enumerate(behs):
+    for bi, (calls, outcome, _proto) in enumerate(behs):
         hist = []
         for op, pat, mode in calls:
             c = c09.model_call_to_real(op, pat, mode)
